@@ -409,6 +409,7 @@ class Interp:
         self.inlined: set = set()
         self.used_summaries: set = set()
         self.expr_overrides: dict = {}
+        self.global_overrides: dict = {}
         self.refs: dict = {}
         from . import builtins_model
         self.builtins = builtins_model.make_builtins(self)
@@ -979,6 +980,8 @@ class Interp:
             return env.lookup(node.id)
         except KeyError:
             pass
+        if node.id in self.global_overrides:
+            return self.global_overrides[node.id]
         if node.id in self.builtins:
             return self.builtins[node.id]
         v = self.module_global(env.module, node.id)
@@ -1353,6 +1356,8 @@ class Interp:
             raise Unsupported(f'exception attribute {name}')
         if isinstance(obj, SliceVal):
             return getattr(obj, name)
+        if isinstance(obj, Noop):
+            return Builtin('noop.' + name, lambda *a, **k: None)
         # methods of builtin types
         return self.methods.bound_builtin_method(self, obj, name, lineno)
 
@@ -1744,6 +1749,10 @@ class ZipVal:
 @dataclass
 class GenVal:
     items: list
+
+
+class Noop:
+    """An object whose every method does nothing and returns None (loggers, progress callbacks)."""
 
 
 class UninterpFn:
